@@ -508,7 +508,11 @@ def add_sites(repo: Repo, res: Result, rule: str, sites) -> int:
         elif s.verdict == "reviewed":
             res.observe(f"{rule} reviewed site {s.fi.relpath}::{s.fi.qualname}: `{norm(s.node, 60)}` - {s.why}")
         elif s.verdict == "unknown":
-            res.undecide(rule, key, s.why, where(s.fi, s.node))
+            if s.op in ("startswith", "removeprefix") and s.needle is not None and ends_with_separator(repo, s.fi, s.needle):
+                n += 1
+                res.add(rule, key, True, "prefix ends in '.' (constant separator appended: whole dotted components)", where(s.fi, s.node), kind="flow")
+            else:
+                res.undecide(rule, key, s.why, where(s.fi, s.node))
         elif s.verdict == "unclassified":
             res.observe(f"{rule} unclassified (not armed) {s.fi.relpath}::{s.fi.qualname}: `{norm(s.node, 60)}` - {s.why}")
     return n
@@ -548,6 +552,31 @@ def zip_fixture_selfcheck() -> str:
         return "1 truncated and 1 length-guarded zip comparison of component lists classified as expected (embedded fixture)"
     finally:
         shutil.rmtree(tmp, ignore_errors=True)
+
+
+def ends_with_separator(repo: Repo, f: FuncInfo, e: ast.expr, depth: int = 0) -> bool:
+    """The string provably ends with '.', also when the separator is a module-level constant or comes through a local
+    (rules/names.py leaves such prefixes unclassified)."""
+    from core.fold import fold
+
+    if depth > 5:
+        return False
+    s = fold(repo, f.module, e, f)
+    if s is not None:
+        return s.endswith(".")
+    if isinstance(e, ast.BinOp) and isinstance(e.op, ast.Add):
+        return ends_with_separator(repo, f, e.right, depth + 1)
+    if isinstance(e, ast.JoinedStr) and e.values:
+        last = e.values[-1]
+        return ends_with_separator(repo, f, last.value if isinstance(last, ast.FormattedValue) else last, depth + 1)
+    if isinstance(e, ast.IfExp):
+        return ends_with_separator(repo, f, e.body, depth + 1) and ends_with_separator(repo, f, e.orelse, depth + 1)
+    if isinstance(e, ast.Name) and not isinstance(f.node, ast.Lambda) and e.id not in f.param_names:
+        assigns = [n for n in own_nodes(f.node) if isinstance(n, (ast.Assign, ast.AnnAssign)) and n.value is not None and any(isinstance(t, ast.Name) and t.id == e.id for t in (n.targets if isinstance(n, ast.Assign) else [n.target]))]
+        stores = [n for n in own_nodes(f.node) if isinstance(n, ast.Name) and n.id == e.id and isinstance(n.ctx, ast.Store)]
+        if assigns and len(stores) == len(assigns):
+            return all(ends_with_separator(repo, f, a.value, depth + 1) for a in assigns)
+    return False
 
 
 def run_r2(repo: Repo, res: Result, it: M.Interp, internal: set[str], how: str) -> None:
